@@ -59,8 +59,57 @@ def run(ctx):
     from sessions.c01 import life_cycles
     life_cycles(ctx, judge, ctx.n(350, 8000))
     deciding_component(ctx, ctx.n(200, 4000))
+    copied_blocks(ctx, ctx.n(200, 4000))
     if ctx.thorough or True:
         capture_sizes(ctx)
+
+
+def copied_blocks(ctx, n):
+    """copy.copy / copy.deepcopy of a block (what a program does before it tries a change), then items added to or removed
+    from the copy: whatever the copy shares with the original, BOTH objects must go on declaring the size they write"""
+    import copy
+    import sessions.c20 as c20
+    rng = ctx.rng
+    for i in range(n):
+        kind = ["emg", "data3d", "force3d", "platdata", "platcalib", "events", "optical"][i % 7]
+        v = A.GEN[kind](rng)
+        if kind in ("emg", "platdata"):
+            v[3] = list(range(len(v[3])))      # low channels: automatic channels (max + 1) added below stay inside the on-disk range
+        elif kind == "platcalib":
+            v[0] = list(range(len(v[0])))
+        how = rng.choice(["copy", "deepcopy"])
+        rep = dict(kind=kind, v=v, how=how)
+        try:
+            obj = A.build(kind, v)
+            c20.N = v[1] if kind == "data3d" else v[2] if kind in ("emg", "force3d", "platdata") else 2
+            c20.PROFILE = None
+            dup = copy.copy(obj) if how == "copy" else copy.deepcopy(obj)
+            steps = []
+            for _ in range(rng.randrange(1, 4)):
+                target = rng.choice([obj, dup])
+                items = c20.items_of(kind, target)
+                if items and rng.random() < 0.4:
+                    c20.remove(kind, target, rng.randrange(len(items)))
+                    steps.append("remove from " + ("the copy" if target is dup else "the original"))
+                else:
+                    it = c20.new_item(kind, rng)
+                    if kind == "emg":
+                        it.label = f"n{i}_{len(steps)}"
+                    c20.add(kind, target, it)
+                    steps.append("add to " + ("the copy" if target is dup else "the original"))
+        except Exception as e:
+            ctx.diff("c02.copy", f"{kind}: copying / editing a copy raised {type(e).__name__}: {str(e)[:80]}", rep)
+            continue
+        finally:
+            c20.N = 2
+        ctx.case((kind, how, str(v)[:500], str(steps)), nontrivial=True, tags=(kind, how))
+        for name, o in (("original", obj), ("copy", dup)):
+            r = B.observe_obj(kind, o)
+            if "enc" in r and (r["nbytes"] != len(r["enc"]) or r.get("tell", len(r["enc"])) != len(r["enc"])):
+                ctx.fail(f"{kind}: after {how} and {steps} the {name} declares nBytes={r['nbytes']}, writes {len(r['enc'])}, decoding consumes {r.get('tell')}", dict(rep, steps=steps),
+                         ident=f"{kind} {name} mis-sized after {how}")
+            elif "exc" in r and r["stage"] in ("decode", "abs1", "nbytes1", "rewrite"):
+                ctx.fail(f"{kind}: after {how} and {steps} the {name}'s own encoding cannot be read back: {r['exc'][:80]}", dict(rep, steps=steps), ident=f"{kind} {name} unreadable after {how}")
 
 
 def deciding_component(ctx, n):
